@@ -295,6 +295,18 @@ def run(chk):
                 vals["gaussian_cmi[DataFrame X, Y, Z]"] = float(g(fX, fY, pd.DataFrame(Z)))
             vals["gaussian_cmi[Fortran order]"] = float(g(np.asfortranarray(X), np.asfortranarray(Y), None if kz == 0 else np.asfortranarray(Z)))
             chk.count("presentations.dataframe_and_fortran")
+        if len(cases) % 4 == 2:
+            # blocks stored with different element types: one block is handed over as its int64 mantissas (each of its columns
+            # rescaled by a power of two -- C08's own rescaling invariance, exact in floats), the others stay float64
+            blk = (len(cases) // 4) % (3 if kz else 2)
+            I64 = np.array(ints[:, [ix, iy, iz][blk]].tolist(), dtype=np.int64)
+            mX, mY, mZ = [I64 if j == blk else a for j, a in enumerate((X, Y, Z))]
+            nm = f"[{'XYZ'[blk]} stored as int64, the rest float64]"
+            vals["gaussian_cmi" + nm] = float(g(mX, mY, mZ if kz else None))
+            vals["dispatcher" + nm] = float(conditional_mutual_information(mX, mY, mZ if kz else None, method="gaussian"))
+            if kz == 0:
+                vals["gaussian_mi" + nm] = float(gaussian_mutual_information(mX, mY))
+            chk.count(f"presentations.mixed_dtypes.block{'XYZ'[blk]}")
         v = vals["gaussian_cmi"]
         fail = None
         tol = ftol(ref)
